@@ -194,6 +194,42 @@ def fine_interleaved(tr):
     return n
 
 
+def wake_labels(tr):
+    """The labels of the WAKE-UP model (Model/EngineQ.lean) this run corresponds to: who went to sleep in
+    `not_empty.wait()` / `all_tasks_done.wait()` and whom each `put`'s `notify()` really woke are in `tr.wake`."""
+    out = []
+    for kind, v, rest in tr.wake:
+        if kind == "put":
+            out.append("put %s %s" % ("-" if v is None else v, rest))
+        elif kind in ("joinTake", "joinSleep", "interrupt"):
+            out.append(kind)
+        else:
+            out.append("%s %s" % (kind, rest))
+    return out
+
+
+def validate_wake(driver, tr):
+    """Replay the run through the wake-up model's `stepQ?`: every label must be enabled (in particular: a thread the model
+    has asleep never acts, a `put` wakes a sleeper exactly when the model says `notify()` does), nobody is asleep at the end,
+    and the final state shows the same lists as the coarse replay."""
+    me = "none" if tr.max_errors is None else str(tr.max_errors)
+    w = eng.coerce_worker_count(tr.worker_count)
+    labs = wake_labels(tr)
+    line = "wake %d %s | %s | %s | %s" % (w, me, " ".join(map(str, range(len(tr.nodes)))),
+                                         " ".join("%d,%d" % e for e in tr.edges), " ; ".join(labs))
+    out = driver.batch([line])[0]
+    if not out.startswith("ok "):
+        return {"layer": "engine-wake", "model": out[:300], "labels": labs[-14:]}
+    coarse = parse_state(final_model_state(driver, tr))
+    q = parse_state(out)
+    diff = {k: (coarse.get(k), q.get(k)) for k in ("begun", "okd", "failed", "skipped", "q", "unf", "stop", "errs") if coarse.get(k) != q.get(k)}
+    if diff:
+        return {"layer": "engine-wake", "differs(coarse,wake)": diff}
+    if tr.outcome is not None and ("sleep=[]" not in out or "woken=[]" not in out):
+        return {"layer": "engine-wake", "somebody asleep after the run returned": out[-80:]}
+    return None
+
+
 def validate_fine(driver, tr):
     """Replay the run through the fine model's `step2?`: every label must be enabled, and the final state must show the same
     begun / completed / failed lists as the coarse replay."""
@@ -376,6 +412,12 @@ def explore_engine(ctx, props, n_prim, n_op, n_intr=0, p_template=0.15, op_switc
                     stats["fine_lock_blocks"] = stats.get("fine_lock_blocks", 0) + sum(1 for x in tr.fine if x.startswith("acq "))
                     stats["fine_failure_blocks"] = stats.get("fine_failure_blocks", 0) + sum(1 for x in tr.fine if x.startswith("facq "))
                     stats["fine_blocks_interleaved"] = stats.get("fine_blocks_interleaved", 0) + fine_interleaved(tr)
+                if d is None:
+                    d = validate_wake(ctx.driver, tr)
+                    stats["wake_traces_validated"] = stats.get("wake_traces_validated", 0) + 1
+                    stats["wake_worker_sleeps"] = stats.get("wake_worker_sleeps", 0) + sum(1 for x in tr.wake if x[0] == "sleep")
+                    stats["wake_notified"] = stats.get("wake_notified", 0) + sum(1 for x in tr.wake if x[0] == "put" and x[1] is not None)
+                    stats["wake_caller_sleeps"] = stats.get("wake_caller_sleeps", 0) + sum(1 for x in tr.wake if x[0] == "joinSleep")
                 if d:
                     d["case"] = case
                     d["seed"] = seed
